@@ -2,6 +2,7 @@
 import itertools
 
 import fmtcat_grammar
+import fmtcat_intfmt
 import gens_float
 from gens import hexs
 
@@ -71,7 +72,8 @@ def streams(tier, rng, fs, profile):
 
 def int_format_ops(rng, scale):
     ops = []
-    for fmt, name in fmtcat_grammar.INT_FORMATS:
+    # + the separator-free integer format of fmtcat_intfmt (base suffix together with no_integer_leading_zeros)
+    for fmt, name in fmtcat_grammar.INT_FORMATS + [x for x in fmtcat_intfmt.INT_FORMATS if x[1] == "intfmt_suffix_h_nolz"]:
         radix = (fmt >> 104) & 0xFF
         pre, suf = (fmt >> 88) & 0xFF, (fmt >> 96) & 0xFF
         a = ["+", "-", "0", "1", "9" if radix == 10 else "f", " "]
